@@ -53,3 +53,43 @@ def _v6(repo, mod):
 def _v7(repo, mod):
     fn = repo.func(A2A, "_make_float_literal")
     return insert_before(mod, fn.body[0], "_unused = value")
+
+
+TU = "pynguin.utils.type_utils"
+ATO = "pynguin.assertion.assertiontraceobserver"
+
+
+@variant("C20", "dict-keys-not-checked", TU, "C20.admit", "is_assertable looks at the values of a dict only")
+def _v20(repo, mod):
+    fn = repo.func(TU, "is_assertable")
+    n = find_node(fn, lambda n: isinstance(n, ast.BoolOp) and "is_assertable(key" in norm(n))
+    return replace_node(mod, n, "is_assertable(value, recursion_depth + 1)")
+
+
+@variant("C20", "sequence-elements-not-checked", TU, "C20.admit", "a list / tuple is admitted whatever it holds")
+def _v21(repo, mod):
+    fn = repo.func(TU, "is_assertable")
+    r = find_stmt(fn, lambda s: isinstance(s, ast.Return) and "for elem in obj" in norm(s))
+    return replace_node(mod, r.value, "True")
+
+
+@variant("C20", "expected-value-aliases-live-object", ATO, "C20.detached", "the assertion keeps the observed object itself")
+def _v22(repo, mod):
+    c = find_node(repo.module(ATO).tree, lambda n: isinstance(n, ast.Call) and norm(n.func).endswith("ObjectAssertion") and len(n.args) == 2)
+    return replace_node(mod, c.args[1], "value")
+
+
+@variant("C20", "expected-value-shallow-copy", ATO, "C20.detached", "a shallow copy shares the nested containers")
+def _v23(repo, mod):
+    c = find_node(repo.module(ATO).tree, lambda n: isinstance(n, ast.Call) and norm(n.func).endswith("ObjectAssertion") and len(n.args) == 2)
+    return replace_node(mod, c.args[1], "copy.copy(value)")
+
+
+@variant("C20", "twin-deep-copy-in-a-local", ATO, None, "the deep copy held in a local first stays silent")
+def _v24(repo, mod):
+    c = find_node(repo.module(ATO).tree, lambda n: isinstance(n, ast.Call) and norm(n.func).endswith("ObjectAssertion") and len(n.args) == 2)
+    st = c
+    from sa.engine.index import parent
+    while not isinstance(st, ast.stmt):
+        st = parent(st)
+    return replace_nodes(mod, [(c.args[1], "expected")]).replace(norm(st)[:0], "", 0) if False else insert_before(mod, st, "expected = copy.deepcopy(value)").replace("ass.ObjectAssertion(source, copy.deepcopy(value))", "ass.ObjectAssertion(source, expected)")
